@@ -413,7 +413,7 @@ func init() {
 		Assumptions: []string{"back-off scaled to 20 ms per second through the verif hook except in canary cases", "back-off checked as a lower bound on the monotonic clock"},
 		Gen: func(seed int64, tier string) []fw.Case {
 			var cs []fw.Case
-			n := tierN(tier, 2400, 40000)
+			n := tierN(tier, 4800, 80000)
 			for i := 0; i < n; i++ {
 				s := fw.SubSeed(seed, i)
 				rng := fw.Rand(s)
@@ -447,7 +447,7 @@ func init() {
 		Assumptions: []string{"holds are bounded (250 ms) yield-point delays, never unbounded", "hang = 4 s of silence with nothing alive"},
 		Gen: func(seed int64, tier string) []fw.Case {
 			var cs []fw.Case
-			reps := tierN(tier, 2, 24)
+			reps := tierN(tier, 3, 40)
 			for rep := 0; rep < reps; rep++ {
 				for i := 0; i < 448; i++ {
 					s := fw.SubSeed(seed, rep*448+i)
@@ -456,7 +456,7 @@ func init() {
 					cs = append(cs, c)
 				}
 			}
-			n := tierN(tier, 600, 12000)
+			n := tierN(tier, 1500, 30000)
 			for i := 0; i < n; i++ {
 				s := fw.SubSeed(seed, 5000000+i)
 				cs = append(cs, fw.MkCase("C03", "random", s, genShutdownRandom(fw.Rand(s))))
@@ -493,7 +493,7 @@ func init() {
 		Assumptions: []string{"per-request attribution of new instances is skipped while another start/restart of the same process overlaps the request"},
 		Gen: func(seed int64, tier string) []fw.Case {
 			var cs []fw.Case
-			n := tierN(tier, 1500, 25000)
+			n := tierN(tier, 3000, 50000)
 			for i := 0; i < n; i++ {
 				s := fw.SubSeed(seed, i)
 				cs = append(cs, fw.MkCase("C08", "history", s, genManualCase(fw.Rand(s), i)))
@@ -518,7 +518,7 @@ func init() {
 		Assumptions: []string{"transition table transcribed from the statement; transitions are tracked per Process instance"},
 		Gen: func(seed int64, tier string) []fw.Case {
 			var cs []fw.Case
-			n := tierN(tier, 2000, 30000)
+			n := tierN(tier, 4000, 60000)
 			for i := 0; i < n; i++ {
 				s := fw.SubSeed(seed, i)
 				rng := fw.Rand(s)
@@ -564,7 +564,7 @@ func init() {
 		Assumptions: []string{"'running when the shutdown began' = a command alive at the shutdown.enter event"},
 		Gen: func(seed int64, tier string) []fw.Case {
 			var cs []fw.Case
-			n := tierN(tier, 1000, 15000)
+			n := tierN(tier, 3000, 45000)
 			for i := 0; i < n; i++ {
 				s := fw.SubSeed(seed, i)
 				cs = append(cs, fw.MkCase("C12", "ordered", s, genOrderedCase(fw.Rand(s), i)))
